@@ -53,6 +53,95 @@ def oracle_serial(r: dict) -> list[str]:
     return msgs
 
 
+def cancel_caller_case(delay: int, slow: int) -> dict:
+    """The task that called run() is cancelled `delay` loop steps after the call (a time-out around it) while another plugin's start-run hook
+    is still busy (it suspends `slow` times).  A recording plugin must still see a protocol-conforming hook sequence: if it received start-run,
+    the run is under way — the events, end-run (state 'running', arguments present) and finished follow once the child exits."""
+    import asyncio
+    from typing import Any
+    from .. import fakes, lifecycle, loop as ctl
+    from nextline.spawned import RunResult
+
+    async def main() -> dict:
+        from nextline.plugin.spec import hookimpl
+        sc = lifecycle.Scenario(0, 1, False, False)
+        await sc.setup()
+        nl = sc.nl
+        log: list = []
+
+        def rec(name: str, context: Any) -> None:
+            log.append((name, nl.state, context.run_arg is not None))
+
+        class Recorder:
+            @hookimpl
+            async def on_initialize_run(self, context: Any) -> None:
+                rec('I', context)
+
+            @hookimpl
+            async def on_start_run(self, context: Any) -> None:
+                rec('S', context)
+
+            @hookimpl
+            async def on_end_run(self, context: Any) -> None:
+                rec('E', context)
+
+            @hookimpl
+            async def on_finished(self, context: Any) -> None:
+                rec('F', context)
+
+        class Slow:
+            @hookimpl
+            async def on_start_run(self, context: Any) -> None:
+                for _ in range(slow):
+                    await asyncio.sleep(0)
+        nl.register(Slow())
+        nl.register(Recorder())
+        await sc.op('start')
+        t = asyncio.ensure_future(nl.run())
+        for _ in range(delay):
+            await asyncio.sleep(0)
+        t.cancel()
+        await lifecycle.settle()
+        out: dict = {'delay': delay, 'slow': slow, 'state': nl.state, 'live': len(sc.world.live()),
+                     'caller': 'cancelled' if t.cancelled() else (f'raised {type(t.exception()).__name__}' if t.done() and t.exception() else
+                                                                 ('returned' if t.done() else 'still waiting'))}
+        for c in sc.world.live():
+            c.exit(RunResult(ret=5), exitcode=0)
+        await lifecycle.settle()
+        out.update(state_after=nl.state, live_after=len(sc.world.live()), hooks=list(log))
+        for c in sc.world.live():
+            c.exit(RunResult(ret=None), exitcode=0)
+        try:
+            await asyncio.wait_for(nl.close(), timeout=5)
+        except BaseException:  # noqa
+            pass
+        t.cancel()
+        return out
+    fakes.install()
+    try:
+        return ctl.run(main, ctl.Fifo())
+    except (Exception, ctl.StepBudgetExceeded) as e:  # noqa
+        return {'delay': delay, 'slow': slow, 'error': f'{type(e).__name__}: {e}'}
+
+
+def cancel_caller_oracle(r: dict) -> list[str]:
+    if 'error' in r:
+        return [f'scenario failed: {r["error"]}']
+    who = (f"the task that called run() was cancelled {r['delay']} loop step(s) after the call, another plugin's start-run hook suspending {r['slow']} time(s) "
+           f"(caller: {r['caller']})")
+    word = ''.join(h[0] for h in r['hooks'])
+    m = []
+    if not re.fullmatch(r'I(SEF)?', word):
+        m.append(f'{who}; after the child exited the recording plugin has received {word!r} (expected initialise-run, and if start-run then end-run and finished, each once)')
+    want = {'I': ('initialized', True), 'S': ('running', True), 'E': ('running', True), 'F': ('finished', False)}
+    for name, state, has_arg in r['hooks']:
+        if (state, has_arg) != want[name]:
+            m.append(f"{who}; hook {name} was called in state {state!r} with the run's arguments {'present' if has_arg else 'absent'}")
+    if r['live_after']:
+        m.append(f"{who}; {r['live_after']} child process(es) were started after the scenario had let the run's child exit")
+    return m
+
+
 def run(chk: common.Check) -> None:
     chk.cov.rule = ('serial histories (as C01) incl. run/reset cycles, every way a run ends in the simulated child (result, no result, signals), '
                     'prompts during the run; a recording plugin registered through Nextline.register samples Nextline.state and context.run_arg '
@@ -74,6 +163,14 @@ def run(chk: common.Check) -> None:
         if m:
             oracle_fail.append(({'init': r['init'], 'ops': r['ops'], 'schedule': r['schedule'], 'implementation': r['impl']}, m, None))
     dis = _life.compare(rows, KINDS)
+    for slow in (0, 3, 8):
+        for delay in (0, 1, 2, 3, 4, 6, 9, 12):
+            r = cancel_caller_case(delay, slow)
+            chk.cov.case(('caller-cancelled', delay, slow))
+            chk.cov.count('kinds', 'caller-of-run-cancelled-while-a-start-run-hook-is-busy')
+            m = cancel_caller_oracle(r)
+            if m:
+                oracle_fail.append(({'cancel_caller': r}, m, None))
     # real spawn children, every way of ending incl. a hard exit with a positive status: the protocol seen by a registered plugin
     rs = [{'statement': 'x = 1\n', 'policy': {'kind': 'all', 'command': 'next'}, 'timeout': 40, 'why': 'return'},
           {'statement': 'import os, time\ntime.sleep(0.3)\nos._exit(1)\n', 'policy': {'kind': 'all', 'command': 'next'}, 'timeout': 40, 'why': 'os._exit(1)'},
